@@ -232,8 +232,98 @@ def r3(ctx):
             ctx.check(mentions_name(e[2][i + 1], nm), "fwd:update_flags:%s" % nm, "%s <- %s" % (nm, expr_str(e[2][i + 1])[:50]), ub.where(b.idx))
 
 
+def _variant_fields(ctx, enum, v):
+    a = ctx.prog.adts.get(enum) or ctx.ffi.adts.get(enum)
+    if a is None:
+        return None
+    for x in a["variants"]:
+        if x["name"] == v:
+            return [(f[0], f[1]) for f in x["fields"]]
+    return None
+
+
+def r4(ctx):
+    """Payload completeness of value conversions. (a) In a hand-written From/Into impl, a matched variant whose payload is never read is a
+    loss if a sibling variant of the same enum with the same payload type has its payload read in that body (Time::Synchronized(t) carried
+    over, Time::Unsynchronized(_) dropped). (b) Wherever a struct is built across the boundary inside the arm of a variant with NAMED
+    fields, a target field with the name of one of the variant's fields is filled from it (Overflow { created, discarded } ->
+    UpdateInfoFields { created, discarded })."""
+    ffi = ctx.ffi
+    na = nb = 0
+    for bd in ffi.bodies.values():
+        if not hand_written(bd):
+            continue
+        last = bd.path.split("::")[-1]
+        sym = ctx.sym(bd)
+        gi = ctx.gi(bd)
+        gs = [g for g in gi.all_guards() if g.kind == "is" and g.enum and not is_tracing(g.macros)]
+        if not gs:
+            continue
+        # (b) named payload fields -> namesake target fields
+        for b, si, st in bd.assigns():
+            rv = st.rv
+            if rv["k"] != "agg" or rv.get("ak") != "struct" or side(rv["adt"]) is None or len(rv["fields"]) < 2:
+                continue
+            dom = [g for g in ctx.guards_at(bd, b.idx) if g.kind == "is" and g.enum and side(g.enum) not in (None, side(rv["adt"]))]
+            if not dom:
+                continue
+            g = min(dom, key=lambda g: len(bd.region_of_edge(g.edge)))
+            vf = _variant_fields(ctx, g.enum, g.name)
+            if not vf:
+                continue
+            named = [n_ for n_, _ in vf if not n_.isdigit()]
+            e = sym.rvalue_expr(rv)
+            for fname, fe in e[3]:
+                if fname not in named:
+                    continue
+                nb += 1
+                src = ("field", ("variant", g.a, g.name), fname)
+                ctx.check(mentions(fe, lambda x: x == src), "payload-field@%s:%s::%s.%s" % (short(bd.path), g.enum.split("::")[-1], g.name, fname), "%s.%s <- %s" % (rv["adt"].split("::")[-1], fname, expr_str(fe)[:60]), bd.where(b.idx), bad_detail="%s::%s carries a field `%s` and %s has a field of that name, but it is filled with `%s`: the value is lost at the boundary" % (g.enum.split("::")[-1], g.name, fname, rv["adt"].split("::")[-1], expr_str(fe)[:60]))
+        # (a) sibling deviation inside From / Into impls
+        if last not in ("from", "into"):
+            continue
+        reads, whole = set(), set()
+        exprs = [sym.rvalue_expr(st.rv) for _, _, st in bd.assigns()] + [sym.call_expr(b.term) for b in bd.calls()]
+        for g in gi.all_guards():
+            exprs += g.exprs()
+        for e in exprs:
+            for x in expr_walk(e):
+                if x[0] == "field" and x[1][0] == "variant":
+                    reads.add((x[1][1], x[1][2], x[2]))
+                elif x[0] == "call":
+                    whole.update(x[2])
+                elif x[0] == "agg":
+                    whole.update(a for _, a in x[3])
+        for _, _, _, e in ret_sites(bd, sym):
+            whole.add(e)
+        by_scrut = {}
+        for g in gs:
+            vf = _variant_fields(ctx, g.enum, g.name)
+            if vf:
+                by_scrut.setdefault((g.a, g.enum), {})[g.name] = vf
+        for (x, enum), vs in by_scrut.items():
+            if x in whole:
+                continue
+            status = {v: all((x, v, f) in reads for f, _ in fs) for v, fs in vs.items()}
+            for v, fs in vs.items():
+                if status[v]:
+                    continue
+                sib = [w for w, ws in vs.items() if w != v and status[w] and [t for _, t in ws] == [t for _, t in fs]]
+                na += 1
+                ctx.check(not sib, "payload-sibling@%s:%s::%s" % (short(bd.path), enum.split("::")[-1], v), "no sibling of %s::%s with the same payload type is carried over while it is dropped" % (enum.split("::")[-1], v), bd.where(line=bd.line), bad_detail="the conversion reads the payload of %s::%s but drops the payload of %s::%s (same type %s): the value is lost at the boundary" % (enum.split("::")[-1], "/".join(sib), enum.split("::")[-1], v, [t for _, t in fs]))
+    # positive controls: the two instances this rule was written for are present
+    tb = [b for b in ffi.bodies.values() if hand_written(b) and re.search(r"From<std::option::Option<dnp3::app::(measurement::)?Time>> for dnp3_ffi::ffi::Timestamp>::from$", b.path)]
+    if len(tb) != 1:
+        raise AnchorError("From<Option<Time>> for ffi::Timestamp (%d)" % len(tb))
+    ctx.check(any(g.kind == "is" and (g.enum or "").endswith("::Time") for g in ctx.gi(tb[0]).all_guards()), "timestamp:matches-on-Time", "the Timestamp conversion distinguishes the Time variants (so the sibling rule applies to it)", tb[0].where(line=tb[0].line))
+    if nb < 2:
+        raise AnchorError("named payload field initialisations: %d" % nb)
+    ctx.note("payload checks: %d sibling groups with an unread variant, %d named payload fields" % (na, nb))
+
+
 RULES = [
     ("C20.R1", "T4-namesake", "every cross-boundary enum arm constructs the namesake variant; both directions compose to identity", r1),
     ("C20.R2", "T8-namesake", "struct fields and constructor arguments are filled from their own namesake", r2),
     ("C20.R3", "T8-forwarders", "database forwarders resolve to the namesake native operation with the same arguments", r3),
+    ("C20.R4", "T8-payload", "variant payloads are carried across the boundary: no sibling-deviant drop, named fields reach their namesakes", r4),
 ]
